@@ -84,6 +84,10 @@ func gunTimeout(kv map[string]string) string {
 func jsonAmmoFile(entries string, omitEmpty bool) string {
 	var b strings.Builder
 	for _, e := range splitNE(entries, ";") {
+		if strings.HasPrefix(e, "!") {
+			b.WriteString(malformedLine(e[1:]) + "\n")
+			continue
+		}
 		parts := strings.Split(e, "|")
 		for len(parts) < 4 {
 			parts = append(parts, "")
@@ -110,6 +114,56 @@ func jsonAmmoFile(entries string, omitEmpty bool) string {
 		b.WriteString("}\n")
 	}
 	return b.String()
+}
+
+// malformedLine: the entry !<k>: a line of the ammo file that cannot be decoded into an ammo (k = which way). With the
+// provider's continueonerror option such a line must cost one failed sample and nothing else; without it the provider
+// stops there.
+func malformedLine(k string) string {
+	switch k {
+	case "1":
+		return `{"tag":"bad1","call":"target.TargetService.Hello","payload":"not a map"}`
+	case "2":
+		return `{"tag":"bad2","call":"target.TargetService.Hello","metadata":{"k":5},"payload":{"name":"x"}}`
+	case "3":
+		return `{"tag":"bad3","call":`
+	case "4":
+		return `["tag","bad4"]`
+	case "5":
+		return `{"tag":5,"call":"target.TargetService.Hello","payload":{"name":"x"}}`
+	case "6":
+		return `{"tag":"bad6","call":"target.TargetService.Hello","payload":{"name":"x"}} trailing`
+	case "7":
+		return `{"tag":"bad7","call":"target.TargetService.Hello","payload":{"name":"x"},"metadata":["a"]}`
+	}
+	return "this is not json"
+}
+
+// providerSection: the grpc/json provider's options: pas = passes (default 1; 0 = unlimited), lim = limit, cc = chosen
+// cases (tags), coe=1 = continueonerror, mas = maxammosize.
+func providerSection(file string, kv map[string]string) map[string]any {
+	a := map[string]any{"type": "grpc/json", "file": file, "passes": 1}
+	if v, ok := kv["pas"]; ok {
+		n, _ := strconv.Atoi(v)
+		a["passes"] = n
+	}
+	if v, _ := strconv.Atoi(kv["lim"]); v > 0 {
+		a["limit"] = v
+	}
+	if cc := splitNE(kv["cc"], ","); len(cc) > 0 {
+		var tags []string
+		for _, t := range cc {
+			tags = append(tags, c20lib.Dec(t))
+		}
+		a["chosencases"] = tags
+	}
+	if kv["coe"] == "1" {
+		a["continueonerror"] = true
+	}
+	if v, _ := strconv.Atoi(kv["mas"]); v > 0 {
+		a["maxammosize"] = v
+	}
+	return a
 }
 
 // env is what one case shoots at: the target (the example service behind the recorder) and, with rp=1, a SEPARATE
@@ -166,7 +220,8 @@ func gunSection(kind string, e *env, kv map[string]string) map[string]any {
 	if t := gunTimeout(kv); t != "" {
 		g["timeout"] = t
 	}
-	if sc, _ := strconv.Atoi(kv["sc"]); sc > 0 && kind == "grpc" {
+	if sc, _ := strconv.Atoi(kv["sc"]); (sc > 0 || kv["sce"] == "1") && kind == "grpc" {
+		// sce=1: the shared client pool is enabled whatever client-number says (0 and negative numbers mean one client)
 		g["shared-client"] = map[string]any{"enabled": true, "client-number": sc}
 	}
 	if e.refl != nil {
@@ -208,8 +263,7 @@ func runJSON(kv map[string]string) string {
 		n = 1
 	}
 	file := c20lib.WriteFile(".jsonl", jsonAmmoFile(kv["e"], kv["oe"] == "1"))
-	y := poolYAML(gunSection("grpc", e, kv),
-		map[string]any{"type": "grpc/json", "file": file, "passes": 1},
+	y := poolYAML(gunSection("grpc", e, kv), providerSection(file, kv),
 		map[string]any{"type": "unlimited", "duration": "120s"}, n)
 	aggr := &c20lib.Aggr{}
 	res := c20lib.RunEngine(y, aggr, 60*time.Second)
@@ -231,8 +285,7 @@ func runJSONSched(kv map[string]string) string {
 		n = 1
 	}
 	file := c20lib.WriteFile(".jsonl", jsonAmmoFile(kv["e"], kv["oe"] == "1"))
-	y := poolYAML(gunSection("grpc", e, kv),
-		map[string]any{"type": "grpc/json", "file": file, "passes": 1},
+	y := poolYAML(gunSection("grpc", e, kv), providerSection(file, kv),
 		map[string]any{"type": "once", "times": 1}, n)
 	m, err := c20lib.NewManual(y, n)
 	if err != nil {
@@ -266,7 +319,12 @@ func runJSONSched(kv map[string]string) string {
 		}
 		shots = append(shots, fmt.Sprintf("%d#%s#%s", i, orDash(strings.Join(cs, "+")), orDash(strings.Join(ss, "+"))))
 	}
-	return "t=" + strings.Join(shots, ";") + " conns=" + strconv.Itoa(c20lib.DistinctPeers(srv.Calls())) + e.stray()
+	perr := ""
+	if len(shots) > 0 && shots[len(shots)-1] == "out-of-ammo" {
+		// the provider has ended: how
+		perr = " perr=" + m.ProviderEnd(10*time.Second)
+	}
+	return "t=" + strings.Join(shots, ";") + " conns=" + strconv.Itoa(c20lib.DistinctPeers(srv.Calls())) + perr + e.stray()
 }
 
 func orDash(s string) string {
@@ -461,7 +519,7 @@ func scenAmmoFile(kv map[string]string) string {
 	var calls []any
 	for _, c := range splitNE(kv["calls"], ";") {
 		p := strings.Split(c, "|")
-		for len(p) < 5 {
+		for len(p) < 6 {
 			p = append(p, "")
 		}
 		name := p[0]
@@ -480,6 +538,11 @@ func scenAmmoFile(kv map[string]string) string {
 		}
 		if p[4] == "u" {
 			call["preprocessors"] = []any{map[string]any{"type": "prepare", "mapping": map[string]string{"u": "source.users[next]"}}}
+		}
+		// a<code>: an assert/response postprocessor demanding that status code (a failed assertion ends the shot)
+		if code, isAssert := strings.CutPrefix(p[5], "a"); isAssert && code != "" {
+			n, _ := strconv.Atoi(code)
+			call["postprocessors"] = []any{map[string]any{"type": "assert/response", "status_code": n}}
 		}
 		calls = append(calls, call)
 	}
@@ -500,6 +563,11 @@ func scenAmmoFile(kv map[string]string) string {
 			}
 			name, cnt, has := strings.Cut(r, "*")
 			if has {
+				// name*cnt_ms: the three-part form name(cnt, sleep)
+				if c, ms, hasSleep := strings.Cut(cnt, "_"); hasSleep {
+					reqs = append(reqs, name+"("+c+", "+ms+")")
+					continue
+				}
 				reqs = append(reqs, name+"("+cnt+")")
 			} else {
 				reqs = append(reqs, name)
